@@ -42,7 +42,20 @@ let parse_cfg (ds : string) (ps : string) : xcfg =
   { xc_cfg = { c_ports = ports; c_devs = devs }; xc_veto = vetof;
     xc_puni = pref 5; xc_pprio = pref 6; xc_pmode = pref 7 }
 
-let rec parse_op (s : string) : yop =
+let parse_disc (ps : string) : n -> bool =
+  let fields = if ps = "-" then [||] else
+    Array.of_list (List.map (fun p -> Array.of_list (String.split_on_char ':' p)) (String.split_on_char ',' ps)) in
+  fun p -> let i = int_of_n p in
+    i < Array.length fields && Array.length fields.(i) > 8 && fields.(i).(8) = "d" && fields.(i).(1) = "o"
+
+let uids_of_mask (m : int) : n list =
+  List.filter_map (fun i -> if m land (1 lsl (i - 1)) <> 0 then Some (n_of_int i) else None) [1; 2; 3]
+
+let rec parse_zop (s : string) : zop =
+  match String.split_on_char '.' s with
+  | ["DF"; p; m] -> ZFire (ni p, uids_of_mask (ios m))
+  | _ -> ZY (parse_op s)
+and parse_op (s : string) : yop =
   match String.split_on_char '.' s with
   | ["F"; n; c] -> YFrame (n_of_string n, ni c)
   | ["H"] -> YHousekeeping
@@ -120,6 +133,19 @@ let prefs_s (c : cfg) (x : xstate) : string =
   String.concat "," (List.init np (fun i -> let p = n_of_int i in
     o x.x_puni p ^ "/" ^ o x.x_pprio p ^ "/" ^ o x.x_pmode p))
 
+let routes_s (z : zstate) : string =
+  let s = z.z_y.y_x.x_s in
+  let st = List.sort compare (List.map (fun (n, o) -> (int_of_n n, o)) s.s_store) in
+  String.concat "," (List.map (fun (n, o) ->
+    string_of_int n ^ ":" ^ String.concat "." (List.map (fun uid ->
+      match route z o (n_of_int uid) with Some p -> sn p | None -> "-") [1; 2; 3])) st)
+
+let pend_s (c : cfg) (z : zstate) : string =
+  let s = z.z_y.y_x.x_s in
+  String.concat "," (List.mapi (fun i pc ->
+    let p = n_of_int i in
+    if pc.pc_in || s.s_pdead p then "-" else sn (z.z_pend p)) c.c_ports)
+
 let res_s (r : res) = match r with
   | RBool true -> "1" | RBool false -> "0" | RUnit -> "-"
   | RSaved l -> "saved:" ^ joini (sorted l)
@@ -129,16 +155,20 @@ let handle (payload : string) : string =
   | [ds; ps; os] ->
     let xc = parse_cfg ds ps in
     let c = xc.xc_cfg in
-    let ops = if os = "-" then [] else List.map parse_op (String.split_on_char ',' os) in
+    let zc = { zc_xc = xc; zc_disc = parse_disc ps } in
+    let ops = if os = "-" then [] else List.map parse_zop (String.split_on_char ',' os) in
     let b = Buffer.create 1024 in
-    let y = ref (yinit xc) in
+    let z = ref (zinit zc) in
+    let y = ref !z.z_y in
     let x = ref !y.y_x in
     let tags = Hashtbl.create 8 in
     let tag t = Hashtbl.replace tags t () in
     Buffer.add_string b ("d=" ^ dump c !x.x_s ^ ";p=" ^ prio_s c !x.x_s);
     let dead = ref false in
-    List.iteri (fun k o ->
+    List.iteri (fun k zo ->
       if not !dead then begin
+        let o = match zo with ZY yo -> yo | ZFire (p, _) -> YX (XBase (Data p)) in
+        (match zo with ZFire (p, _) -> if int_of_n (!z.z_pend p) > 0 then tag "fire" | _ -> ());
         let s = !x.x_s in
         (* classify what this op exercises *)
         (match (match o with YX xo -> xo | YFrame (n, cl) -> XBase (SrcAdd (n, cl)) | YHousekeeping -> XBase GC
@@ -169,18 +199,20 @@ let handle (payload : string) : string =
          | XSvcUnregister (n, _) -> if sfind n s.s_store = None then tag "svcunreg-missing"
          | _ -> ());
         (match o with YFrame _ -> tag "frame" | YHousekeeping -> tag "housekeeping" | _ -> ());
-        match ystep xc !y o with
-        | YDangling -> dead := true; Buffer.add_string b (Printf.sprintf ";r%d=MODEL-DANGLING" k)
-        | YOk (y', r) ->
+        match zstep zc !z zo with
+        | ZDangling -> dead := true; Buffer.add_string b (Printf.sprintf ";r%d=MODEL-DANGLING" k)
+        | ZOk (z', r) ->
+          let y' = z'.z_y in
           (match r with RSaved (_ :: _) -> tag "gc" | _ -> ());
           let x' = y'.y_x in
           let r = match o with YX (XSvcRegister _) | YX (XSvcUnregister _) -> RUnit | _ -> r in
           let rs = match o, r with YFrame _, RUnit -> "missing" | YFrame _, _ -> "-" | _ -> res_s r in
-          y := y'; x := x';
-          Buffer.add_string b (Printf.sprintf ";r%d=%s;d%d=%s;c%d=%s;b%d=%s;f%d=%s;p%d=%s" k rs k (dump c x'.x_s)
-                                 k (cands x'.x_s) k (broker_s c x') k (prefs_s c x') k (prio_s c x'.x_s))
+          z := z'; y := y'; x := x';
+          Buffer.add_string b (Printf.sprintf ";r%d=%s;d%d=%s;c%d=%s;b%d=%s;f%d=%s;p%d=%s;t%d=%s;q%d=%s" k rs k (dump c x'.x_s)
+                                 k (cands x'.x_s) k (broker_s c x') k (prefs_s c x') k (prio_s c x'.x_s)
+                                 k (routes_s z') k (pend_s c z'))
       end) ops;
-    let order = ["housekeeping"; "frame"; "vetounpatch"; "vetostate"; "vetorepatch"; "vetofresh"; "register"; "unregister"; "svcunreg-missing";
+    let order = ["fire"; "housekeeping"; "frame"; "vetounpatch"; "vetostate"; "vetorepatch"; "vetofresh"; "register"; "unregister"; "svcunreg-missing";
                  "loop"; "multi"; "gc"; "stop"; "repatch"; "nullport"] in
     let prim = match List.filter (fun t -> t <> "gc" && Hashtbl.mem tags t) order with t :: _ -> t | [] -> "plain" in
     let cls = prim ^ (if Hashtbl.mem tags "gc" then "+collect" else "") in
